@@ -9,45 +9,69 @@ Open Scope N_scope.
 
 Definition compat (tq tp : N) : Prop := tq = tp \/ tq = 1.
 
-Definition covered (s : fs) (tree n : N) : Prop :=
+Definition covered (m : mstate) (tree n : N) : Prop :=
   exists q tq lq aq bq,
-    pcls q = CLtx tq lq aq bq /\ compat tq tree /\ aq <= n /\ n <= bq /\ present_all s q.
+    In q (mever m ++ mknown m) /\
+    pcls q = CLtx tq lq aq bq /\ compat tq tree /\ aq <= n /\ n <= bq /\ present_all (mfs m) q.
 
 Definition Cov (m : mstate) : Prop :=
   forall p t l a b, In p (mever m) -> pcls p = CLtx t l a b ->
-  forall n, a <= n -> n <= b -> covered (mfs m) t n.
+  forall n, a <= n -> n <= b -> covered m t n.
+
+Lemma mever_mono m c q : In q (mever m) -> In q (mever (mstep m c)).
+Proof.
+  intro H. destruct c; simpl; auto. destruct (svol (mfs m) src); simpl; auto.
+Qed.
+
+Lemma mknown_mono m c q : In q (mknown m) -> In q (mknown (mstep m c)).
+Proof.
+  intro H. destruct c; simpl; auto. destruct (svol (mfs m) src); simpl; auto.
+  destruct (is_ltx dst); simpl; auto.
+Qed.
+
+Lemma known_mono m c q : In q (mever m ++ mknown m) -> In q (mever (mstep m c) ++ mknown (mstep m c)).
+Proof.
+  intro H. apply in_app_or in H as [H|H]; apply in_or_app;
+    [left; now apply mever_mono | right; now apply mknown_mono].
+Qed.
 
 Lemma ltx_final q t l a b : pcls q = CLtx t l a b -> finalb q = true.
 Proof. unfold finalb. now intros ->. Qed.
 
-Lemma covered_intro s t n q tq lq aq bq :
-  pcls q = CLtx tq lq aq bq -> compat tq t -> aq <= n -> n <= bq -> present_all s q -> covered s t n.
-Proof. intros. exists q, tq, lq, aq, bq. auto. Qed.
+Lemma covered_intro m t n q tq lq aq bq :
+  In q (mever m ++ mknown m) ->
+  pcls q = CLtx tq lq aq bq -> compat tq t -> aq <= n -> n <= bq -> present_all (mfs m) q -> covered m t n.
+Proof. intros. exists q, tq, lq, aq, bq. auto 10. Qed.
 
 Lemma covered_step m c t n :
-  guard m c = 0 -> covered (mfs m) t n -> covered (step (mfs m) c) t n.
+  guard m c = 0 -> covered m t n -> covered (mstep m c) t n.
 Proof.
-  intros Hg (q & tq & lq & aq & bq & Hc & Hcomp & Ha & Hb & Hp).
+  intros Hg (q & tq & lq & aq & bq & Hk & Hc & Hcomp & Ha & Hb & Hp).
   assert (forall dst, c = Rename q dst -> False) as Hren.
   { intros dst ->. unfold guard in Hg. rewrite (ltx_final _ _ _ _ _ Hc) in Hg. discriminate. }
-  destruct c; try (eapply covered_intro; [exact Hc | exact Hcomp | exact Ha | exact Hb |];
-                   apply present_all_step; [assumption | assumption | discriminate]).
+  assert (forall d, c = Mkdir d \/ c = Rmdir d -> in_dir d q = false) as Hdir.
+  { intros d Hd. apply (dir_dead_present m d q); [|apply in_or_app; right; exact Hk|exact Hp].
+    destruct Hd as [->| ->]; simpl in Hg; destruct (dir_dead m d); auto; discriminate. }
+  assert ((c = Unlink q -> False) -> covered (mstep m c) t n) as Hkeep.
+  { intro Hu. eapply covered_intro; [apply known_mono; exact Hk | exact Hc | exact Hcomp | exact Ha | exact Hb |].
+    rewrite mfs_mstep. apply present_all_step; assumption. }
+  destruct c; try (apply Hkeep; discriminate).
   (* Unlink p *)
-  destruct (path_dec p q) as [->|Hn].
-  - simpl in Hg. rewrite Hc in Hg. destruct Hp as ([a0 Hv] & Hrest). rewrite Hv in Hg.
-    destruct (existsb (fun q0 => supersedesb q0 q && present_allb (mfs m) q0) (mknown m)) eqn:E; [|discriminate].
-    apply existsb_exists in E as (q' & _ & E). apply andb_true_iff in E as [Hs Hp'].
-    apply present_allb_spec in Hp'. unfold supersedesb in Hs. rewrite Hc in Hs.
-    destruct (pcls q') as [| |tq' lq' aq' bq'] eqn:Hc'; try discriminate.
-    repeat (apply andb_true_iff in Hs; destruct Hs as [Hs ?]).
-    apply negb_true_iff in Hs. apply path_eqb_neq in Hs.
-    apply N.leb_le in H, H0. unfold compatb in H1. apply orb_true_iff in H1.
-    eapply (covered_intro _ _ _ q' tq' lq' aq' bq'); try assumption; try lia.
-    + destruct H1 as [H1|H1]; apply N.eqb_eq in H1; subst; [assumption | right; reflexivity].
-    + apply present_all_step; [assumption | discriminate |].
-      intro E. inversion E. congruence.
-  - eapply covered_intro; [exact Hc | exact Hcomp | exact Ha | exact Hb |].
-    apply present_all_step; [assumption | assumption |]. intro E. inversion E. congruence.
+  destruct (path_dec p q) as [->|Hn]; [|apply Hkeep; intro E; inversion E; congruence].
+  simpl in Hg. rewrite Hc in Hg. destruct Hp as ([a0 Hv] & Hrest). rewrite Hv in Hg.
+  destruct (existsb (fun q0 => supersedesb q0 q && present_allb (mfs m) q0) (mknown m)) eqn:E; [|discriminate].
+  apply existsb_exists in E as (q' & Hk' & E). apply andb_true_iff in E as [Hs Hp'].
+  apply present_allb_spec in Hp'. unfold supersedesb in Hs. rewrite Hc in Hs.
+  destruct (pcls q') as [| |tq' lq' aq' bq'] eqn:Hc'; try discriminate.
+  repeat (apply andb_true_iff in Hs; destruct Hs as [Hs ?]).
+  apply negb_true_iff in Hs. apply path_eqb_neq in Hs.
+  apply N.leb_le in H, H0. unfold compatb in H1. apply orb_true_iff in H1.
+  eapply (covered_intro _ _ _ q' tq' lq' aq' bq'); try lia.
+  - apply known_mono. apply in_or_app. right. exact Hk'.
+  - exact Hc'.
+  - destruct H1 as [H1|H1]; apply N.eqb_eq in H1; subst; [assumption | right; reflexivity].
+  - rewrite mfs_mstep. apply present_all_step; [assumption | discriminate | | intros d [Hd|Hd]; discriminate Hd].
+    intro E. inversion E. congruence.
 Qed.
 
 Lemma mever_mstep m c :
@@ -56,7 +80,7 @@ Proof. destruct c; simpl; try reflexivity. destruct (svol (mfs m) src); reflexiv
 
 Lemma Cov_step m c : Cov m -> guard m c = 0 -> Cov (mstep m c).
 Proof.
-  intros HC Hg p t l a b Hin Hc n Ha Hb. rewrite mfs_mstep. rewrite mever_mstep in Hin.
+  intros HC Hg p t l a b Hin Hc n Ha Hb. rewrite mever_mstep in Hin.
   assert (In p (mever m) \/ (c = Ack p /\ present_all (mfs m) p)) as Hcase.
   { destruct c; auto. destruct Hin as [<-|Hin]; auto. right. split; [reflexivity|].
     simpl in Hg. destruct (finalb p0); simpl in Hg; [|discriminate].
@@ -64,7 +88,8 @@ Proof.
     now apply present_allb_spec. }
   destruct Hcase as [Hold|[-> Hp]].
   - apply covered_step; [assumption|]. eapply HC; eauto.
-  - simpl. eapply covered_intro; eauto. left. reflexivity.
+  - eapply covered_intro; [| exact Hc | left; reflexivity | exact Ha | exact Hb | simpl; exact Hp].
+    simpl. left. reflexivity.
 Qed.
 
 Lemma Cov_run t : forall m, Cov m -> run_ok t m = true -> Cov (mrun t m).
@@ -107,7 +132,7 @@ Proof.
   assert (forall t m, mfs (mrun t m) = run t (mfs m)) as Hrun.
   { induction t as [|c t IH]; intro m; simpl; [reflexivity|]. now rewrite IH, mfs_mstep. }
   unfold ever_acked in Hin. change (@nil path) with (mever m_init) in Hin. rewrite <- mever_mrun in Hin.
-  destruct (HC p tr l a b Hin Hcl n Ha Hb) as (q & tq & lq & aq & bq & Hq & Hcomp & Hqa & Hqb & Hp).
+  destruct (HC p tr l a b Hin Hcl n Ha Hb) as (q & tq & lq & aq & bq & _ & Hq & Hcomp & Hqa & Hqb & Hp).
   exists q, tq, lq, aq, bq.
   split; [assumption|]. split; [assumption|]. split; [assumption|]. split; [assumption|].
   rewrite Hrun in Hp. simpl in Hp.
